@@ -686,6 +686,11 @@ class ModuleEmitter:
                 self.builder.connect(wire.name, self.sigspec(value))
 
     def emit_signal_fields(self):
+        # Submodule and instance cells are emitted after the field wires; their names are taken too.
+        cell_names = {self.netlist.modules[idx].name[-1] for idx in self.module.submodules
+                      if not self.empty_checker.is_empty(idx)}
+        cell_names |= {self.netlist.cells[idx].name for idx in self.module.cells
+                       if isinstance(self.netlist.cells[idx], _nir.Instance)}
         for signal, name in self.module.signal_names.items():
             fields = self.netlist.signal_fields[signal]
             for path, field in fields.items():
@@ -705,8 +710,8 @@ class ModuleEmitter:
                 if field.enum_variants is not None:
                     for var_val, var_name in field.enum_variants.items():
                         attrs["enum_value_" + to_binary(var_val & ((1 << len(field.value)) - 1), len(field.value))] = var_name
-                if f"\\{''.join(name_parts)}" in self.builder.contents:
-                    continue # The name is taken by a signal; field wires are only aliases.
+                if f"\\{''.join(name_parts)}" in self.builder.contents or "".join(name_parts) in cell_names:
+                    continue # The name is taken; field wires are only aliases.
                 wire = self.builder.wire(width=len(field.value), signed=field.signed, attrs=attrs,
                                          name="".join(name_parts), src_loc=signal.src_loc)
                 self.builder.connect(wire.name, self.sigspec(field.value))
